@@ -76,9 +76,10 @@ StepO3(s) == [s EXCEPT !.main = s.bak, !.bak = Absent, !.bakDone = FALSE, !.mixe
 StepO4(s) == [s EXCEPT !.main = IF s.main.st = "absent" THEN Zero ELSE s.main]
 StepO5(s) ==
   IF s.main.st = "zero"
-  THEN \* a database without pages: SQLite deletes a -wal lying beside it; CREATE TABLE
-       \* writes the file in rollback mode, then the header is switched to WAL
-       [s EXCEPT !.main = Db({}), !.wal = NoWal, !.shm = "absent"]
+  THEN \* a database without pages: SQLite deletes a non-empty -wal lying beside it (a
+       \* zero-length one counts as absent and stays, so does a -shm); CREATE TABLE writes
+       \* the file in rollback mode, then the header is switched to WAL
+       [s EXCEPT !.main = Db({}), !.wal = IF s.wal.st = "data" THEN NoWal ELSE s.wal]
   ELSE \* WAL recovery: whatever -wal lies beside the file is replayed over it
        [s EXCEPT !.shm = "present",
                  !.wal = IF s.wal.st = "absent" THEN EmptyWal ELSE [s.wal EXCEPT !.foreign = FALSE],
